@@ -10,6 +10,7 @@ mod c07;
 mod c08;
 mod c17;
 mod c18;
+mod c19;
 mod c11;
 mod c12;
 mod c13;
@@ -31,6 +32,7 @@ pub fn run(engine: &str, toks: Vec<Tok>) -> Vec<Tok> {
         "c06_encode" => c06::encode(toks),
         "c07_run" => c07::run(toks),
         "c08_run" => c08::run(toks),
+        "c19_run" => c19::run(toks),
         "c16_run" => c16::run(toks),
         "c18_session" => c18::session(toks),
         "c12_extract" => c12::extract(toks),
